@@ -1,1 +1,2 @@
 pub mod range;
+pub mod ods;
